@@ -182,6 +182,17 @@ def stored(fmt, d):
         e[("atcharges", "mulliken")] = approx(d.atcharges["mulliken"], 0.5e-6 * 1.01)
     if fmt == "wfx" and d.atgradient is not None:
         e[("atgradient",)] = approx(d.atgradient, 1e-300, 1e-13)
+    if fmt == "wfx":
+        # the optional fields the WFX writer takes from `extra` (counts exactly, reals to the printed digits) - also when they are zero
+        for k in ("num_core_electrons", "num_perturbations"):
+            if d.extra.get(k) is not None:
+                e[("extra", k)] = Exact(int(d.extra[k]))
+        for k in ("nuc_viral", "full_virial_ratio", "virial_ratio"):
+            if d.extra.get(k) is not None:
+                e[("extra", k)] = approx(d.extra[k], 1e-300, 1e-13)
+        for k in ("keywords", "model_name"):
+            if d.extra.get(k) is not None:
+                e[("extra", k)] = Exact(d.extra[k])
     return e
 
 
@@ -218,6 +229,13 @@ def run_case(case):
     if fmt == "fchk":
         data.run_type = [None, "energy", "energy_force", "opt", "scan", "freq"][case["i"] % 6]
         feats["run_type"] = data.run_type
+    if fmt == "wfx" and case["i"] % 2 == 0:
+        # the optional WFX fields, with the values an all-electron calculation has: zero core electrons, zero perturbations, a
+        # vanishing nuclear virial
+        zero = case["i"] % 4 == 0
+        data.extra = dict(data.extra or {}, keywords="GTO", num_perturbations=0, model_name="Restricted HF", virial_ratio=2.0003,
+                          num_core_electrons=0 if zero else 10, nuc_viral=0.0 if zero else -0.25, full_virial_ratio=0.0 if zero else 2.0004)
+        feats["wfx_extra"] = "zeros" if zero else "non-zero"
     # memory layout of the arrays is not part of the data: Fortran-ordered / strided / reversed views of equal arrays
     if case["i"] % 3 == 2:
         go.relayout(data, gb.rng_for(2, 77, case["seed"], case["i"]))
